@@ -271,6 +271,8 @@ def _expand_combinator(prog, t, locals_, blocks, b, file_):
         b_call = nb(c_st, {"k": "call", "f": callee, "args": args, "dest": pl(r2), "t": b_sw, "unwind": unwind, "ln": ln})
     # --- the dispatching block (replaces the combinator call)
     blk = blocks[b]
+    if isinstance(blocks, _Blocks):
+        blocks.touch()
     blk["s"].append(assign(pl(s_l), {"k": "use", "x": copy.deepcopy(scr)}))
     if adt == "bool":
         blk["t"] = {"k": "switch", "x": {"k": "copy", "l": s_l, "p": []}, "arms": [[0, b_other]], "otherwise": b_call, "ln": ln,
@@ -286,7 +288,36 @@ def _expand_combinator(prog, t, locals_, blocks, b, file_):
 FN_CALLS = ("std::ops::FnOnce::call_once", "std::ops::FnMut::call_mut", "std::ops::Fn::call")
 
 
+class _Blocks(list):
+    """block list with an index of whole-local definitions, rebuilt lazily when blocks were added or
+    changed (the inliner only appends blocks and statements)"""
+    def __init__(self, it):
+        super().__init__(it)
+        self._idx = None
+        self._stamp = None
+
+    def touch(self):
+        self._idx = None
+
+    def defs(self):
+        stamp = len(self)
+        if self._idx is None or stamp != self._stamp:
+            idx = {}
+            for blk in self:
+                for st in blk["s"]:
+                    if st["k"] == "assign" and not st["place"]["p"]:
+                        idx.setdefault(st["place"]["l"], []).append(st)
+                t = blk["t"]
+                if t["k"] == "call" and not t["dest"]["p"]:
+                    idx.setdefault(t["dest"]["l"], []).append(None)
+            self._idx, self._stamp = idx, stamp
+        return self._idx
+
+
 def _single_def_stmt(blocks, l):
+    if isinstance(blocks, _Blocks):
+        d = blocks.defs().get(l, [])
+        return d[0] if len(d) == 1 and d[0] is not None else None
     found = None
     for blk in blocks:
         for st in blk["s"]:
@@ -394,7 +425,25 @@ def inline(prog, f, pick=None, keep=(), depth=MAX_DEPTH, cross=None, value_combi
     if pick is None:
         pick = default_pick(prog, f, keep, cross)
     j = f.j
-    blocks = copy.deepcopy(j["blocks"])
+    # cheap pre-check: anything to fold in at all?
+    from .core import Call
+    maybe = False
+    for b_, blk_ in enumerate(j["blocks"]):
+        t_ = blk_["t"]
+        if t_["k"] != "call":
+            continue
+        fj_ = t_["f"]
+        if fj_.get("path") in COMBINATORS or fj_.get("path") in FN_CALLS:
+            maybe = True
+            break
+        key_ = fj_.get("r_key") if ("r_key" in fj_ and fj_.get("r_local")) else (fj_.get("key") if fj_.get("local") and "r_key" not in fj_ else None)
+        g_ = prog.by_key.get(key_) if key_ else None
+        if g_ is not None and g_.blocks and g_.key != f.key and len(t_["args"]) == g_.argc and pick(Call(f, b_, t_), g_):
+            maybe = True
+            break
+    if not maybe:
+        return f
+    blocks = _Blocks(copy.deepcopy(j["blocks"]))
     locals_ = list(j["locals"])
     names = list(j.get("names", []))
     promoted = list(j.get("promoted", []))
@@ -483,12 +532,13 @@ def inline(prog, f, pick=None, keep=(), depth=MAX_DEPTH, cross=None, value_combi
         for i, a in enumerate(t["args"]):
             blocks[b]["s"].append({"k": "assign", "place": {"l": lo + 1 + i, "p": []},
                                    "rv": {"k": "use", "x": copy.deepcopy(a)}, "ln": ln, "bind": True})
+        blocks.touch()
         blocks[b]["t"] = {"k": "goto", "t": bo, "ln": ln, "inlined_call": g.path}
         inlined.append(g.path)
     if not inlined:
         return f
     j2 = dict(j)
-    j2["blocks"] = blocks
+    j2["blocks"] = list(blocks)
     j2["locals"] = locals_
     j2["names"] = names
     j2["promoted"] = promoted
